@@ -671,6 +671,7 @@ func doConf(list string) int {
 		for _, n := range p.HarnessNames("Conf_") {
 			names = append(names, strings.TrimPrefix(n, "Conf_"))
 		}
+		names = append(names, p.HarnessNames("Native_")...)
 	} else {
 		names = strings.Split(list, ",")
 	}
@@ -688,6 +689,16 @@ func doConf(list string) int {
 			continue
 		}
 		nat := strings.TrimSuffix(strings.TrimPrefix(string(out), "=== "+n+"\n"), "\n")
+		if strings.HasPrefix(n, "Native_") {
+			// native-only validation (e.g. decoder contracts against the real decoders)
+			if strings.HasPrefix(nat, "OK") {
+				fmt.Printf("CONF %s: %s\n", n, firstLine(nat))
+			} else {
+				fmt.Printf("CONF %s: FAILED\n%s\n", n, nat)
+				bad++
+			}
+			continue
+		}
 		eng, err := p.RunConcrete("Conf_"+n, *trace)
 		if err != nil {
 			fmt.Printf("CONF %s: %v\n", n, err)
